@@ -55,7 +55,7 @@ def balanced(text, start):
 def function_body(src, header_re):
     m = re.search(header_re, src)
     if not m: raise Unsupported('no match for %s' % header_re)
-    b = src.index('{', m.end() - 1) if src[m.end() - 1] != '{' else m.end() - 1
+    b = m.start() + m.group(0).rindex('{') if '{' in m.group(0) else src.index('{', m.end())
     return src[b:balanced(src, b)]
 
 def first_match(body, scrut_re, nth=0):
@@ -309,24 +309,25 @@ class Emit:
         if arity > 1 and p[0] == 'or': return ' | '.join(self.toppat(a, arity) for a in p[1])
         if arity > 1 and p[0] != 'tuple': raise Unsupported('a %s pattern for a %d-tuple scrutinee' % (p[0], arity))
         return self.pat(p, True)
-    def arms(self, scrut, arms):
+    def arms(self, scrut, arms, val=None):
         """first-match semantics with guards: a guarded arm falls through to the remaining arms when its guard is false"""
         arity = len(self.split_top(scrut))
         wild = ', '.join(['_'] * arity)
+        val = val or self.expr
         if not arms: raise Unsupported('match falls off its last arm (a final guarded arm)')
         i = 0; block = []
         while i < len(arms) and arms[i][1] is None:
             block.append(arms[i]); i += 1
         if block:
             rest = arms[i:]
-            s = 'match %s with\n' % scrut + ''.join('  | %s => %s\n' % (self.toppat(p, arity), self.expr(x)) for (p, _, x) in block)
-            if rest: s += '  | %s => %s\n' % (wild, self.arms(scrut, rest))
+            s = 'match %s with\n' % scrut + ''.join('  | %s => %s\n' % (self.toppat(p, arity), val(x)) for (p, _, x) in block)
+            if rest: s += '  | %s => %s\n' % (wild, self.arms(scrut, rest, val))
             return '(' + s + '  end)'
         (p, g, x) = arms[0]; rest = arms[1:]
-        r = self.arms(scrut, rest)
+        r = self.arms(scrut, rest, val)
         if self.irrefutable(p):
-            return '(let rest__ := %s in\n  match %s with\n  | %s => if %s then %s else rest__\n  end)' % (r, scrut, self.toppat(p, arity), self.expr(g), self.expr(x))
-        return '(let rest__ := %s in\n  match %s with\n  | %s => if %s then %s else rest__\n  | %s => rest__\n  end)' % (r, scrut, self.toppat(p, arity), self.expr(g), self.expr(x), wild)
+            return '(let rest__ := %s in\n  match %s with\n  | %s => if %s then %s else rest__\n  end)' % (r, scrut, self.toppat(p, arity), self.expr(g), val(x))
+        return '(let rest__ := %s in\n  match %s with\n  | %s => if %s then %s else rest__\n  | %s => rest__\n  end)' % (r, scrut, self.toppat(p, arity), self.expr(g), val(x), wild)
     def irrefutable(self, p):
         if p[0] in ('wild', 'var'): return True
         if p[0] == 'name': return p[1] not in CTOR
